@@ -399,6 +399,13 @@ class Interp:
                 for kk, aa, _ in parse_format(spec):
                     if kk == 'field':
                         spec = spec.replace('{%s}' % aa, str(kwargs.get(aa, '')))
+            out = out + self.format_piece(v, spec)
+        return self.plain(out)
+
+    def format_piece(self, v, spec):
+        """abstract text of one replacement field (str.format and f-strings)"""
+        if True:
+            out = SegStr()
             if isinstance(v, (str, SegStr)) and spec:
                 m_ = re.fullmatch(r'(?:(.)?([<>^]))?(\d+)?s?', spec)
                 if not m_:
@@ -414,10 +421,8 @@ class Interp:
                     piece = SegStr.lit(fill * pad) + piece
                 else:
                     piece = SegStr.lit(fill * (pad // 2)) + piece + fill * (pad - pad // 2)
-                out = out + piece
-                continue
-            out = out + self.seg(v, spec)
-        return self.plain(out)
+                return piece
+            return self.seg(v, spec)
 
     def call_method(self, obj, mname, args, kwargs, after=None):
         if mname in obj.opaque_methods:
@@ -918,8 +923,20 @@ class Frame:
                 items = list(v)
             else:
                 raise Unsupported('unpacking of %r' % (v,), target, self.module.relpath)
+            stars = [i for i, t in enumerate(target.elts) if isinstance(t, ast.Starred)]
+            if len(stars) == 1:
+                k = stars[0]
+                after = len(target.elts) - k - 1
+                if len(items) < len(target.elts) - 1:
+                    raise _RaisedExc(Raised('ValueError', target))
+                for t, x in zip(target.elts[:k], items[:k]):
+                    self.assign(t, x)
+                self.assign(target.elts[k].value, ListV(list(items[k:len(items) - after])))
+                for t, x in zip(target.elts[k + 1:], items[len(items) - after:] if after else []):
+                    self.assign(t, x)
+                return
             if len(items) != len(target.elts):
-                raise Unsupported('unpacking length mismatch', target, self.module.relpath)
+                raise _RaisedExc(Raised('ValueError', target))       # too many / not enough values to unpack
             for t, x in zip(target.elts, items):
                 self.assign(t, x)
             return
@@ -938,6 +955,13 @@ class Frame:
                     raise _RaisedExc(Raised('ValueError', target))      # shape mismatch in row assignment
                 cur.items[self.index(last, len(cur), target)] = v
                 return
+            if isinstance(base, ListV) and isinstance(idx, SliceV):
+                if idx.full and isinstance(v, ListV) and len(v) == len(base):
+                    base.items[:] = list(v.items)           # a[:] = values
+                    return
+                if idx.full and isinstance(v, ListV):
+                    raise _RaisedExc(Raised('ValueError', target))
+                raise Unsupported('slice store', target, self.module.relpath)
             if isinstance(base, ListV):
                 i = self.index(idx, len(base), target)
                 if self.in_vec_loop:
@@ -1089,17 +1113,28 @@ class Frame:
         if isinstance(n, ast.GeneratorExp):
             return self.listcomp(n)
         if isinstance(n, ast.DictComp):
-            if len(n.generators) != 1:
-                raise Unsupported('comprehension form', n, self.module.relpath)
-            g = n.generators[0]
             out = DictV()
-            for item in self.iter_items(self.ev(g.iter), n):
-                sub = Frame(self.I, self.module, dict(self.env), self.owner, self.self_obj)
-                sub.assign(g.target, item)
-                if all(self.I.truth(sub.ev(c_), c_) for c_ in g.ifs):
+
+            def rec_d(sub, gens):
+                if not gens:
                     k = sub.ev(n.key)
                     out.d[out.nkey(k)] = sub.ev(n.value)
+                    return
+                g_ = gens[0]
+                for item in sub.iter_items(sub.ev(g_.iter), n):
+                    sub2 = Frame(self.I, self.module, dict(sub.env), self.owner, self.self_obj)
+                    sub2.assign(g_.target, item)
+                    if all(self.I.truth(sub2.ev(c_), c_) for c_ in g_.ifs):
+                        rec_d(sub2, gens[1:])
+            rec_d(Frame(self.I, self.module, dict(self.env), self.owner, self.self_obj), list(n.generators))
             return out
+        if isinstance(n, ast.SetComp):
+            r_ = self.listcomp(n)
+            if isinstance(r_, ListV) and all(isinstance(I.plain(x), str) for x in r_.items):
+                s_ = ListV(list(dict.fromkeys(I.plain(x) for x in r_.items)))
+                s_.is_set = True
+                return s_
+            raise Unsupported('set comprehension of non-string items', n, self.module.relpath)
         if isinstance(n, ast.Subscript):
             return self.subscript(n)
         if isinstance(n, ast.Attribute):
@@ -1107,7 +1142,30 @@ class Frame:
         if isinstance(n, ast.Call):
             return self.call(n)
         if isinstance(n, ast.JoinedStr):
-            return '<fstring>'
+            out = SegStr()
+            for part in n.values:
+                if isinstance(part, ast.Constant):
+                    out = out + str(part.value)
+                    continue
+                v = self.ev(part.value)
+                spec = ''
+                if part.format_spec is not None:
+                    sv = self.ev(part.format_spec)
+                    sv = I.plain(sv)
+                    if not isinstance(sv, str) or sv in I.sym_strings:
+                        raise Unsupported('symbolic format spec in an f-string', n, self.module.relpath)
+                    spec = sv
+                if part.conversion in (115, 114):       # !s / !r
+                    v = builtin_call(I, self, 'str', [v], {}, n)
+                if isinstance(v, DictV) or isinstance(v, (Obj, ClassInfo)):
+                    v = builtin_call(I, self, 'str', [v], {}, n)
+                try:
+                    out = out + I.format_piece(v, spec)
+                except Unsupported:
+                    # same convention as str.format: text of a value that has no abstract spelling (a class, a
+                    # function) is an opaque literal; it can only matter in messages
+                    out = out + '<formatted>'
+            return I.plain(out)
         if isinstance(n, ast.Lambda):
             return FuncRef(self.module, n, None, self.owner)
         if isinstance(n, ast.Slice):
@@ -1121,7 +1179,24 @@ class Frame:
 
     def listcomp(self, n):
         if len(n.generators) != 1:
-            raise Unsupported('comprehension form', n, self.module.relpath)
+            # nested generators: for a in A for b in B(a) if cond ... over bounded sequences
+            out = []
+
+            def rec(sub, gens):
+                if not gens:
+                    out.append(sub.ev(n.elt))
+                    return
+                g_ = gens[0]
+                it_ = sub.ev(g_.iter)
+                if isinstance(it_, Elem):
+                    raise Unsupported('nested comprehension over a vector of unknown length', n, self.module.relpath)
+                for item in sub.iter_items(it_, n):
+                    sub2 = Frame(self.I, self.module, dict(sub.env), self.owner, self.self_obj)
+                    sub2.assign(g_.target, item)
+                    if all(self.I.truth(sub2.ev(cond), cond) for cond in g_.ifs):
+                        rec(sub2, gens[1:])
+            rec(Frame(self.I, self.module, dict(self.env), self.owner, self.self_obj), list(n.generators))
+            return ListV(out)
         g = n.generators[0]
         it = self.ev(g.iter)
         if isinstance(it, Elem):
@@ -1222,16 +1297,21 @@ class Frame:
             r.is_array = True
             return r
         if isinstance(base, ListV) and isinstance(idx, ListV):
-            cur = base
-            for pos, ix in enumerate(idx.items):
+            def nd(cur, ixs):
+                # a[i, :, k]: integers select, full slices keep the axis
+                if not ixs:
+                    return cur
                 if not isinstance(cur, ListV):
                     raise _RaisedExc(Raised('IndexError', n))
-                if isinstance(ix, SliceV) and ix.full and pos == len(idx.items) - 1:
-                    r = ListV(list(cur.items))         # a[i, j, :] - a (copy of a) row
-                    r.is_array = True
-                    return r
-                cur = cur.items[self.index(ix, len(cur), n)]
-            return cur
+                ix = ixs[0]
+                if isinstance(ix, SliceV):
+                    if not ix.full:
+                        raise Unsupported('partial slice inside a multi-dimensional index', n, self.module.relpath)
+                    r_ = ListV([nd(x, ixs[1:]) for x in cur.items])
+                    r_.is_array = True
+                    return r_
+                return nd(cur.items[self.index(ix, len(cur), n)], ixs[1:])
+            return nd(base, list(idx.items))
         if isinstance(base, ListV):
             return base.items[self.index(idx, len(base), n)]
         if isinstance(base, DictV):
@@ -1271,6 +1351,8 @@ class Frame:
                     return GLOBAL_ATTRS[full](I)
                 if r is not None:
                     return self.entity(r, n)
+                if full in I.native:
+                    return NativeRef(full)          # a library function used as a value (select = np.max if ...)
                 raise Unsupported('unknown global %s' % full, n, self.module.relpath)
         base = self.ev(n.value)
         if base is None:
@@ -1809,8 +1891,18 @@ def builtin_call(I, fr, name, args, kwargs, n):
     if name == 'sorted':
         v = args[0]
         items = v.items if isinstance(v, ListV) else (list(v.d.keys()) if isinstance(v, DictV) else None)
-        if items is not None and all(isinstance(x, str) for x in items) and not kwargs:
-            return ListV(sorted(items))
+        rev = bool(kwargs.get('reverse', False))
+        if items is not None and all(isinstance(x, str) for x in items) and set(kwargs) <= {'reverse'}:
+            return ListV(sorted(items, reverse=rev))
+        if items is not None and all(isinstance(x, Rat) for x in items) and set(kwargs) <= {'reverse'}:
+            order_ = list(range(len(items)))
+            for i in range(1, len(order_)):
+                j = i
+                while j > 0 and I.compare('<', items[order_[j]], items[order_[j - 1]], n):
+                    order_[j], order_[j - 1] = order_[j - 1], order_[j]
+                    j -= 1
+            out_ = [items[i] for i in order_]
+            return ListV(list(reversed(out_)) if rev else out_)
         raise Unsupported('sorted() of non-string items', n)
     if name == 'print':
         return None
@@ -1971,6 +2063,16 @@ def bound_native(I, fr, bn, args, kwargs, n):
         pa = [a if isinstance(a, str) else _as_int(a, n) for a in args]
         r = getattr(b, name)(*pa)
         return C(r) if isinstance(r, int) and not isinstance(r, bool) else r
+    if isinstance(b, str) and b not in I.sym_strings and name in (
+            'split', 'rsplit', 'partition', 'rpartition', 'splitlines', 'removeprefix', 'removesuffix', 'center',
+            'expandtabs', 'isupper', 'islower', 'istitle', 'isnumeric', 'isdecimal', 'isidentifier', 'startswith',
+            'endswith') and all((isinstance(a, str) and a not in I.sym_strings) or
+                                (isinstance(a, Rat) and a.is_const()) or a is None for a in args) and not kwargs:
+        pa = [a if isinstance(a, str) or a is None else _as_int(a, n) for a in args]
+        r = getattr(b, name)(*pa)
+        if isinstance(r, (list, tuple)):
+            return ListV(list(r))
+        return C(r) if isinstance(r, int) and not isinstance(r, bool) else r
     if isinstance(b, str) and name == 'split' and all(isinstance(a, str) for a in args):
         return ListV(list(b.split(*args)))
     if isinstance(b, str) and name == 'replace' and len(args) in (2, 3) and all(isinstance(a, str) for a in args[:2]):
@@ -2108,8 +2210,15 @@ def _arg(args, kwargs, i, name, default=Ellipsis):
     return default
 
 
+def _vec_norm(v):
+    """a list filled by one append per element of a vector of unknown length is that vector of generic items"""
+    if isinstance(v, ListV) and len(v.items) == 1 and isinstance(v.items[0], VecItem):
+        return Elem(v.items[0].r)
+    return v
+
+
 def _np_array(I, fr, args, kwargs, n):
-    v = _arg(args, kwargs, 0, 'object')
+    v = _vec_norm(_arg(args, kwargs, 0, 'object'))
     if isinstance(v, ListV):
         # list of Elem rows -> Elem of ListV row (2-D array with unknown axis 0)
         r = ListV(list(v.items))
@@ -2168,8 +2277,8 @@ def _np_zeros(val):
 
 
 def _np_dot(I, fr, args, kwargs, n):
-    a = _arg(args, kwargs, 0, 'a')
-    b = _arg(args, kwargs, 1, 'b')
+    a = _vec_norm(_arg(args, kwargs, 0, 'a'))
+    b = _vec_norm(_arg(args, kwargs, 1, 'b'))
 
     def is_mat(x):
         return isinstance(x, ListV) and x.items and all(isinstance(r, ListV) for r in x.items)
